@@ -85,7 +85,8 @@ fn parse_array(buf: &[u8]) -> Result<(ArrayIndex, usize), ParseError> {
     }
 
     let array_size = len as usize;
-    let mut array = Vec::with_capacity(array_size);
+    // Every element takes at least one byte: never reserve more than the data can hold.
+    let mut array = Vec::with_capacity(std::cmp::min(array_size, buf.len()));
 
     for _ in 0..array_size {
         let next_buf = buf.get(consumed..).ok_or(ParseError::InvalidProtocol)?;
